@@ -61,6 +61,20 @@ class Opaque:
         return "<%s>" % self.tag
 
 
+class Sym(Opaque):
+    """a symbolic atom: an unknown value with an identity - two atoms are equal iff they carry the same tag"""
+    __slots__ = ()
+
+    def __eq__(self, o):
+        return isinstance(o, Sym) and o.tag == self.tag
+
+    def __ne__(self, o):
+        return not self.__eq__(o)
+
+    def __hash__(self):
+        return hash(("sym", self.tag))
+
+
 class FieldRef:
     """a reference to a field of a struct value (`let Self { a, .. } = self;` binds `a` to `&mut self.a`)"""
     __slots__ = ("base", "name")
@@ -119,6 +133,7 @@ class Interp:
         self.f = facts
         self.builtins = builtins or {}
         self.opaque_conversions = False  # `.into()` / `From::from` of an Opaque value is the value itself (conversions are abstracted)
+        self.unknown_fn = None          # callable(interp, def path, path node, args): a function value without a body is applied
         self.display_hook = None        # callable(value) -> text | None: Display of crate types the caller models
         self.max_depth = max_depth
         self.steps = 0
@@ -151,8 +166,13 @@ class Interp:
 
     def apply_closure(self, clo, args, depth=0):
         """call a closure value produced by evaluating a closure expression"""
-        if isinstance(clo, tuple) and len(clo) == 2 and clo[0] == "__fn":
+        if isinstance(clo, tuple) and clo and clo[0] == "__fn":
+            fn_ = self.f.fns.get(clo[1])
+            if (fn_ is None or fn_.get("hir") is None) and self.unknown_fn is not None:
+                return self.unknown_fn(self, clo[1], clo[2] if len(clo) > 2 else None, list(args))
             return self.call_fn(clo[1], list(args), depth + 1)
+        if clo == ("__corefn", "convert") and len(args) == 1 and isinstance(args[0], Opaque):
+            return args[0]
         if isinstance(clo, tuple) and len(clo) == 2 and clo[0] == "__ctorfn":
             return ("__some", args[0]) if clo[1] == "core::option::Option::Some" else Var(clo[1], list(args))
         if clo == ("__corefn", "char_from_u8") and len(args) == 1 and isinstance(args[0], int):
@@ -307,8 +327,10 @@ class Interp:
                 if "Fn" in (e.get("dk") or ""):
                     return ("__ctorfn", e.get("ctor_of") or d)      # a tuple-variant constructor used as a function value
                 return Var(e.get("ctor_of") or d)
-            if (e.get("dk") or "") in ("Fn", "AssocFn") and d in self.f.fns:
-                return ("__fn", d)
+            if (e.get("dk") or "") in ("Fn", "AssocFn") and (d in self.f.fns or (self.unknown_fn is not None and d.startswith("crate::"))):
+                return ("__fn", d, e)
+            if (e.get("dk") or "") in ("Fn", "AssocFn") and d in ("core::convert::Into::into", "core::convert::From::from") and self.opaque_conversions:
+                return ("__corefn", "convert")
             if (e.get("dk") or "") in ("Fn", "AssocFn") and d == "core::convert::From::from":
                 ty = self.f.ty(e.get("ty")) or ""
                 if "-> char" in ty and "u8" in ty:
@@ -348,8 +370,10 @@ class Interp:
                 return l or self._bool(self.ev(e["r"], env, depth))
             l = self.ev(e["l"], env, depth)
             r = self.ev(e["r"], env, depth)
-            if isinstance(l, Opaque) or isinstance(r, Opaque):
+            if (isinstance(l, Opaque) and not isinstance(l, Sym)) or (isinstance(r, Opaque) and not isinstance(r, Sym)):
                 raise Unsupported("comparison on opaque value")
+            if (isinstance(l, Sym) or isinstance(r, Sym)) and op not in ("==", "!="):
+                raise Unsupported("ordering of symbolic values")
             if op == "==":
                 return l == r
             if op == "!=":
@@ -751,8 +775,8 @@ class Interp:
                 if fv[1] == "core::option::Option::Some":
                     return ("__some", args[0])
                 return Var(fv[1], args)
-            if isinstance(fv, tuple) and len(fv) == 2 and fv[0] == "__fn":
-                return self.call_fn(fv[1], [self.ev(a, env, depth) for a in e.get("args") or []], depth + 1)
+            if isinstance(fv, tuple) and fv and fv[0] == "__fn":
+                return self.apply_closure(fv, [self.ev(a, env, depth) for a in e.get("args") or []], depth)
             if isinstance(fv, tuple) and len(fv) == 3 and fv[0] == "__closure":
                 args = [self.ev(a, env, depth) for a in e.get("args") or []]
                 # the closure runs in the environment it captured by reference: assignments to captured locals persist
@@ -806,6 +830,40 @@ class Interp:
         if c in ("core::result::Result::Ok", "core::result::Result::Err"):
             return (c.rsplit("::", 1)[-1], self.ev(e["args"][0], env, depth))
         # transparent std helpers
+        if e.get("k") == "mcall" and name in ("map", "and_then", "map_err", "ok", "is_ok", "is_err") and \
+                (decl.startswith("core::result::Result") or c.startswith("core::result::Result")):
+            v = self.ev(e["recv"], env, depth)
+            if isinstance(v, Var) and v.d in ("core::result::Result::Ok", "core::result::Result::Err"):
+                v = (v.d.rsplit("::", 1)[-1], v.fields[0])
+            if not (isinstance(v, tuple) and len(v) == 2 and v[0] in ("Ok", "Err")):
+                raise Unsupported("Result::%s on %r" % (name, v))
+            if name == "is_ok":
+                return v[0] == "Ok"
+            if name == "is_err":
+                return v[0] == "Err"
+            if name == "ok":
+                return ("__some", v[1]) if v[0] == "Ok" else None
+            clo = self.ev(e["args"][0], env, depth)
+            if name == "map":
+                return ("Ok", self.apply_closure(clo, [v[1]], depth + 1)) if v[0] == "Ok" else v
+            if name == "and_then":
+                return self.apply_closure(clo, [v[1]], depth + 1) if v[0] == "Ok" else v
+            if name == "map_err":
+                return ("Err", self.apply_closure(clo, [v[1]], depth + 1)) if v[0] == "Err" else v
+        if e.get("k") == "mcall" and name in ("map_or_else", "map_or", "ok_or", "ok_or_else") and \
+                (decl.startswith("core::option::Option") or c.startswith("core::option::Option")):
+            v = self.ev(e["recv"], env, depth)
+            is_some = isinstance(v, tuple) and len(v) == 2 and v[0] == "__some"
+            if v is not None and not is_some:
+                raise Unsupported("Option::%s on %r" % (name, v))
+            a = [self.ev(x, env, depth) for x in e["args"]]
+            if name == "map_or_else":
+                return self.apply_closure(a[1], [v[1]], depth + 1) if is_some else self.apply_closure(a[0], [], depth + 1)
+            if name == "map_or":
+                return self.apply_closure(a[1], [v[1]], depth + 1) if is_some else a[0]
+            if name == "ok_or":
+                return ("Ok", v[1]) if is_some else ("Err", a[0])
+            return ("Ok", v[1]) if is_some else ("Err", self.apply_closure(a[0], [], depth + 1))
         if e.get("k") == "mcall" and name in ("or_else", "or", "and_then", "map", "unwrap_or", "unwrap_or_else", "is_some", "is_none") and \
                 (decl.startswith("core::option::Option") or c.startswith("core::option::Option")):
             v = self.ev(e["recv"], env, depth)
@@ -864,8 +922,6 @@ class Interp:
                 if isinstance(v, tuple) and len(v) == 2 and v[0] == "Err":
                     raise Diverged("unwrap on Err")
                 return v
-            if name == "into" and self.opaque_conversions and isinstance(v, Opaque):
-                return v
             if name == "into":
                 tgt = c
                 # From<UnOper/BinOper> for Oper etc.: resolved impl in the crate
@@ -875,12 +931,19 @@ class Interp:
                 # blanket Into<U> for T where U: From<T>: find the From impl by result type
                 ty = self.f.ty(e.get("ty"))
                 rty = (self.f.ty(e.get("recv_ty")) or "").lstrip("&")
-                for i in self.f.impls:
-                    if i.get("trait") == "core::convert::From" and i.get("self_ty") == ty and ("From<%s>" % rty) in (i.get("trait_ref") or ""):
-                        return self.call_fn(i["items"]["from"], [v], depth + 1)
+                rty_full = self.f.ty(e.get("recv_ty")) or ""
+                for cand in ([rty_full] if rty_full != rty else []) + [rty]:
+                    for i in self.f.impls:
+                        if i.get("trait") == "core::convert::From" and i.get("self_ty") == ty and ("From<%s>>" % cand) in ((i.get("trait_ref") or "") + ">"):
+                            return self.call_fn(i["items"]["from"], [v], depth + 1)
                 if ty == rty:
                     return v
                 if isinstance(v, str) and ty in ("alloc::string::String", "alloc::borrow::Cow<'_, str>", "&str"):
+                    return v
+                if self.opaque_conversions and (isinstance(v, Opaque) or callable(self.opaque_conversions)):
+                    # no conversion of the crate applies: the conversion is abstracted to the identity (when the caller allows it)
+                    if callable(self.opaque_conversions) and not self.opaque_conversions(self.f.ty(e.get("recv_ty")) or "", ty or ""):
+                        raise Unsupported("conversion %s -> %s of a symbolic value" % (self.f.ty(e.get("recv_ty")), ty))
                     return v
                 raise Unsupported("into %s -> %s" % (rty, ty))
             return v
